@@ -1390,7 +1390,9 @@ func (s *LoadingStore[K, V]) Get(ctx context.Context, key K) (V, error) {
 			if loaded.TTL != 0 {
 				expire = s.timerwheel.clock.ExpireNano(loaded.TTL)
 			}
-			if loaded.Cost == 0 {
+			// a failed load has no value to weigh: the cost function is defined on
+			// loaded values, not on the zero value that comes with an error
+			if err == nil && loaded.Cost == 0 {
 				loaded.Cost = s.cost(loaded.Value)
 			}
 
